@@ -17,7 +17,7 @@ Definition asfound : cfg := mkCfg false false false false false.
 Fixpoint read_line_aux (acc : bytes) (prev_cr : bool) (x : bytes) : option (bytes * bytes) :=
   match x with
   | [] => None
-  | b :: t => if Ascii.eqb b LF && prev_cr then Some (rev (tl acc), t)
+  | b :: t => if Ascii.eqb b LF && prev_cr then Some (frev (tl acc), t)
               else read_line_aux (b :: acc) (Ascii.eqb b CR) t
   end.
 Definition read_line (x : bytes) : option (bytes * bytes) := read_line_aux [] false x.
@@ -69,7 +69,7 @@ Fixpoint read_headers (c : cfg) (fuel : nat) (ver : version) (acc : list header)
       | Some (l, rest) =>
           if negb (all_ascii l) then inl HeadNonAscii else
           match l with
-          | [] => inr (rev acc, rest)
+          | [] => inr (frev acc, rest)
           | _ => match parse_header (if fix_d8 c then trim_end l else trim l) with
                  | Some h => read_headers c f ver (h :: acc) rest
                  | None => inl (HeadBadHeader ver)
